@@ -90,6 +90,7 @@ def shard(ctx, si, payload):
             k32, k64 = kernels(det_alt)
             if k64.dtype != np.float64 or k32.dtype != np.float32:
                 raise core.Inconclusive("the guarded float64 hook is not active (NUSPACESIM_VERIF / NUSPACESIM_VERIF_DTYPE)")
+            items = []
             for (b, a, e) in pts:
                 wit = {"beta": float(b).hex(), "alt": float(a).hex(), "E100PeV": float(e).hex(), "det_alt": det_alt, "readable": [b, a, e]}
                 try:
@@ -141,9 +142,45 @@ def shard(ctx, si, payload):
                     r64 = tuple(float(x) for x in k64.run(one, a, e, 0.0, 0.0))
                     if r32 != (d32, c32) or r64 != (d64, c64):
                         ctx.violation("clamp", f"detector {det_alt} km, alt={a:.4f} km, E={e:.4g}: beta={math.degrees(b):.4f} deg gives {(d32, c32)!r}, beta=1 deg gives {r32!r} (double: {(d64, c64)!r} vs {r64!r})", wit)
+                items.append((b, a, e, d32, c32, d64, c64))
                 ctx.distinct.add_rows(np.array([det_alt]), np.array([b]), np.array([a]), np.array([e]))
                 if si == 0 and len(ctx.samples) < 3:
                     ctx.sample({"det_alt": det_alt, "beta_deg": math.degrees(b), "alt_km": a, "E_100PeV": e, "density_f32": d32, "density_f64": d64, "density_ref": dr, "angle_f32": c32, "angle_ref": cr})
+            # ---- the batch entry point (what EAS calls) gives, event by event, what run() gave above
+            #      (sub-degree angles and this detector altitude included): the model clauses judged on
+            #      run() then hold for the batch path too
+            sel = [it for it in items if it[0] < math.radians(1.0)][:24] + items[:: max(1, len(items) // 40)][:40]
+            if sel:
+                import contextlib
+                import io
+
+                import dask
+
+                arr = [np.array([it[j] for it in sel], dtype=np.float64) for j in range(3)] + [np.zeros(len(sel)), np.zeros(len(sel))]
+                for kk, (jd, jc), nm in ((k32, (3, 4), "float32"), (k64, (5, 6), "double")):
+                    try:
+                        with dask.config.set(scheduler="synchronous"), contextlib.redirect_stdout(io.StringIO()):
+                            dB, cB = kk(*[x.copy() for x in arr])
+                    except Exception as ex:
+                        ctx.exception("raises", f"CphotAng.__call__ raised on {len(sel)} in-domain events (detector {det_alt} km, {nm})", ex, {"det_alt": det_alt})
+                        continue
+                    ctx.count("batch-path", len(sel))
+                    dB, cB = np.asarray(dB, dtype=np.float64), np.asarray(cB, dtype=np.float64)
+                    # like with like (observation O8): the batch hands numpy float64 scalars to run(), and the
+                    # final detector-altitude scaling follows the scalar type; the values judged above against
+                    # the reference (Python floats) differ from these only by that float32 / double rounding
+                    one_ = [tuple(float(v) for v in kk.run(*(np.float64(x[i]) for x in arr))) for i in range(len(sel))]
+                    want_d, want_c = np.array([o[0] for o in one_]), np.array([o[1] for o in one_])
+                    ref_d = np.array([it[jd] for it in sel])
+                    ctx.track_worst(f"scalar_type_density_rel_{nm}", float(np.max(np.abs(want_d - ref_d) / np.maximum(np.abs(ref_d), 1e-300))), 1e-3)
+                    if not np.all(np.abs(want_d - ref_d) <= 1e-3 * np.abs(ref_d) + 1e-300):
+                        i = int(np.argmax(np.abs(want_d - ref_d) / np.maximum(np.abs(ref_d), 1e-300)))
+                        ctx.violation("f64-logic", f"detector {det_alt} km [{nm}]: run() with numpy scalars gives density {want_d[i]!r}, with Python floats {ref_d[i]!r} for the same event (more than scalar-type rounding)", {"det_alt": det_alt, "path": "scalar-type"})
+                    bad = np.flatnonzero(~((dB == want_d) & (cB == want_c))) if dB.shape == want_d.shape else np.zeros(1, int)
+                    if bad.size:
+                        i = int(bad[0])
+                        b_, a_, e_ = sel[i][:3]
+                        ctx.violation("clamp" if b_ < math.radians(1.0) else "f64-logic", f"detector {det_alt} km [{nm}]: the batch call gives (density {dB[i] if dB.size > i else None!r}, angle {cB[i] if cB.size > i else None!r}) for beta={math.degrees(b_):.4f} deg, alt={a_:.4f} km, E={e_:.4g}x100PeV; the same event through run() gives ({want_d[i]!r}, {want_c[i]!r}) ({bad.size} of {len(sel)} events)", {"det_alt": det_alt, "beta": float(b_).hex(), "alt": float(a_).hex(), "E100PeV": float(e_).hex(), "path": "batch"})
         ctx.obs["_f32_rel_devs"] = [float(x) for x in devs]
         ctx.obs["_zsteps_tuples"] = [[float(x).hex() for x in t] for t in tuples[:: max(1, len(tuples) // 400)]]
     finally:
@@ -214,7 +251,7 @@ def run(ctx):
     if ctx.want("sanitizer") or ctx.only is None:
         sanitizer(ctx, tuples_hex)
     ctx.observe("zsteps_so_matches_source", inject.so_matches_source())
-    for m in ("f32-band", "f64-logic", "clamp", "stepping", "stepping-vs-reference", "sanitizer", "f32-median"):
+    for m in ("batch-path", "f32-band", "f64-logic", "clamp", "stepping", "stepping-vs-reference", "sanitizer", "f32-median"):
         ctx.require(m)
     return ctx.finish(
         rule="stratified grid over [0,42 deg] x [0,20 km] x [1e-5,1e4] x 100 PeV incl. all faces, hostile extras (0, 0.25, 0.999999, 1 deg; 10.999999/11/20 km; exact decades) and seeded random points; detector altitudes 525 km (3/4), 33 km and 1000 km (thorough: also 21, 100 and 36000 km); a case is a distinct (detector, beta, altitude, energy); energies within 1e-9 of a power of ten are excluded from the double-precision comparison only (int(log10 E) is a legitimate discontinuity)",
